@@ -96,6 +96,8 @@ pub struct Cfg
     pub setup_once: (u64, u64),
     pub setup_ewr: (u64, u64),
     pub setup_wr: (u64, u64),
+    /// extra weight of `despawn(entity)` triggers in bundles
+    pub despawn_trig_boost: u64,
 }
 
 fn wset(pairs: &[(K, u32)]) -> [u32; NK] { let mut w = [0u32; NK]; for (k, v) in pairs { w[*k as usize] = *v; } w }
@@ -140,6 +142,7 @@ pub fn base_cfg() -> Cfg
         setup_once: (0, 0),
         setup_ewr: (0, 0),
         setup_wr: (0, 0),
+        despawn_trig_boost: 0,
     }
 }
 
@@ -262,6 +265,11 @@ pub fn profile(name: &str) -> Cfg
             c.max_created = 8;
             c.pct_hot = 90;
             c.setup_once = (1, 3);
+            c.despawn_trig_boost = 6;
+            c.w[K::Despawn as usize] = 12;
+            c.d_driver[D::Despawn as usize] = 10;
+            c.d_driver[D::Poll as usize] = 10;
+            c.d_driver[D::Spawn as usize] = 6;
             c.d_driver[D::Gc as usize] = 10;
         }
         "C16" =>
@@ -321,7 +329,8 @@ impl<'a> G<'a>
     {
         if !self.hot_trigs.is_empty() && self.r.chance(self.c.pct_hot) { return *self.r.pick(&self.hot_trigs.clone()); }
         let s = self.slot();
-        match self.r.below(11)
+        let boost = self.c.despawn_trig_boost;
+        match self.r.below(11 + boost)
         {
             0 => Trig::Broadcast(self.p()),
             1 => Trig::AnyEntityEvent(self.p()),
@@ -498,7 +507,7 @@ impl<'a> G<'a>
             x if x == K::WrRemove as usize => { let k = *self.r.pick(&self.wr.clone()); let n = self.r.range(1, 3); let t: Vec<Trig> = (0..n).map(|_| self.any_trig()).collect(); Op::WrRemove(k, dedup(t)) }
             x if x == K::WrRun as usize => Op::WrRun(*self.r.pick(&self.wr.clone())),
             x if x == K::EwrAdd as usize => Op::EwrAdd(*self.r.pick(&self.ewr.clone()), s, self.r.range(1, 9) as u32),
-            x if x == K::EwrRemove as usize => { let k = *self.r.pick(&self.ewr.clone()); let full = if k == 0 { 0b11 } else { 0b111 }; let mask = if self.r.chance(40) { full } else { self.r.range(1, full as u64) as u8 }; Op::EwrRemove(k, s, mask) }
+            x if x == K::EwrRemove as usize => { let k = *self.r.pick(&self.ewr.clone()); let full = if k == 0 { 0b11 } else { 0b111 }; let mask = if self.r.chance(40) { full } else { self.r.range(1, full as u64) as u8 }; if self.r.chance(35) && self.nslots >= 2 { let s2 = (s + 1 + self.r.below(self.nslots as u64 - 1) as Slot) % self.nslots; let m2 = if self.r.chance(50) { full } else { self.r.range(1, full as u64) as u8 }; let mut parts = vec![(s, mask), (s2, m2)]; if self.r.chance(50) { parts.reverse(); } Op::EwrRemoveMany(k, parts) } else { Op::EwrRemove(k, s, mask) } }
             x if x == K::CmdSyscall as usize => crate::sysfam::gen_cmd_syscall(self.r)?,
             _ => return None,
         })
